@@ -381,7 +381,7 @@ func templates(K, M int, r *hx.Rand) []ccase {
 	// for-in over a large array, nested call inside the body
 	A := 200 + K%800
 	c = mk("forin", f(`BEGIN { for (i = 0; i < %d; i++) a[i] = 1; n = 0; for (k in a) { n++; if (n == %d) { R[1] = n; cancel() } R[0] = n } while (1) n++ }`, A, 1+K%A), "live")
-	c.mustCtx = true
+	c.kmin, c.mustCtx = 7, true
 	add(c)
 	c = mk("forin-call-nested", f(`function w(x, j) { for (j = 0; j < 3; j++) x += j; return x } BEGIN { for (i = 0; i < %d; i++) a[i] = i; s = 0; n = 0; for (k in a) { n++; if (n == %d) { R[1] = n; cancel() } s = w(s + k); R[0] = n; for (q in a) { m++ } } print s, m }`, 40+K%60, 1+K%40), "live")
 	c.mustCtx = true
@@ -686,15 +686,66 @@ func (ck *checker) recordsOracle(class, src string, lines int) {
 	}
 }
 
+// a context that expires while the program runs: the error is DeadlineExceeded (WithTimeout) or
+// Canceled (cancelled from another goroutine); the run ends (watchdog: 20 s)
+func (ck *checker) expiringOracle() {
+	rep := ck.rep
+	for _, t := range []struct{ class, src string }{
+		{"expiring/tight-loop", `BEGIN { while (1) n++ }`},
+		{"expiring/recursion", `function f(d) { if (d < 500) f(d + 1) } BEGIN { while (1) f(0) }`},
+		{"expiring/forin", `BEGIN { for (i = 0; i < 1000; i++) a[i]; while (1) for (k in a) n++ }`},
+		{"expiring/end", `END { while (1) n++ }`},
+	} {
+		for _, how := range []string{"timeout", "cancel-from-goroutine"} {
+			prog, err := parser.ParseProgram([]byte(t.src), nil)
+			if err != nil {
+				rep.HarnessError("%s: %v", t.class, err)
+				continue
+			}
+			it, _ := interp.New(prog)
+			var ctx context.Context
+			var cancel context.CancelFunc
+			want := context.DeadlineExceeded
+			if how == "timeout" {
+				ctx, cancel = context.WithTimeout(context.Background(), 15*time.Millisecond)
+			} else {
+				ctx, cancel = context.WithCancel(context.Background())
+				want = context.Canceled
+				go func(c context.CancelFunc) { time.Sleep(15 * time.Millisecond); c() }(cancel)
+			}
+			done := make(chan error, 1)
+			go func() {
+				_, err := it.ExecuteContext(ctx, &interp.Config{Stdin: strings.NewReader("1\n"), Output: io.Discard, Error: io.Discard, Environ: []string{}})
+				done <- err
+			}()
+			rep.SearchEvals++
+			select {
+			case err := <-done:
+				if !errors.Is(err, want) {
+					rep.Fail(hx.Failure{Class: t.class + "/" + how, Oracle: "a context that expires during the run: the call returns the context's error",
+						Detail: map[string]any{"program": t.src, "mode": how, "lines": 1, "expected": want.Error(), "got": fmt.Sprint(err)}})
+				}
+			case <-time.After(watchdog):
+				if hang != nil {
+					hang(t.src, how, 1)
+				}
+			}
+			cancel()
+		}
+	}
+}
+
 // ---------------------------------------------------------------- thorough: OS-level waits (evidence only)
 
 func (ck *checker) runtimeEvidence() {
 	rep := ck.rep
 	type rt struct{ name, src string }
 	for _, t := range []rt{
-		{"system-wait", `BEGIN { system("sleep 5"); print "after" }`},
-		{"getline-pipe-wait", `BEGIN { "sleep 5; echo x" | getline y; print "after", y }`},
-		{"print-pipe-close-wait", `BEGIN { print "x" | "sleep 5; cat >/dev/null"; close("sleep 5; cat >/dev/null"); print "after" }`},
+		// the wait ends when the child is killed (the builtin then returns an exit code, not an error);
+		// the loop that follows is stopped by the next poll
+		{"system-wait", `BEGIN { system("sleep 5"); while (1) n++ }`},
+		{"getline-pipe-wait", `BEGIN { "sleep 5; echo x" | getline y; while (1) n++ }`},
+		{"print-pipe-close-wait", `BEGIN { print "x" | "sleep 5; cat >/dev/null"; close("sleep 5; cat >/dev/null"); while (1) n++ }`},
 	} {
 		prog, err := parser.ParseProgram([]byte(t.src), nil)
 		if err != nil {
@@ -712,9 +763,11 @@ func (ck *checker) runtimeEvidence() {
 		}()
 		time.Sleep(100 * time.Millisecond)
 		cancel()
+		t0 = time.Now()
 		select {
 		case err := <-done:
 			el := time.Since(t0)
+			rep.Count(fmt.Sprintf("runtime:%s:returned-after-ms<=%d", t.name, (el.Milliseconds()/100+1)*100))
 			rep.Count(fmt.Sprintf("runtime:%s:returned-within-2s:ctxerr=%v", t.name, errors.Is(err, context.Canceled)))
 			rep.SearchEvals++
 			if !errors.Is(err, context.Canceled) || el > 2*time.Second {
@@ -781,6 +834,8 @@ func replay(path string) int {
 	fmt.Printf("replay class=%s oracle=%q\nprogram: %s\nmode=%s lines=%d\n", doc.Failure.Class, doc.Failure.Oracle, src, mode, num("lines"))
 	if strings.HasPrefix(doc.Failure.Class, "runtime/") {
 		ck.runtimeEvidence()
+	} else if strings.HasPrefix(doc.Failure.Class, "expiring/") {
+		ck.expiringOracle()
 	} else if _, ok := d["records_consumed_after_cancellation"]; ok {
 		ck.recordsOracle(doc.Failure.Class, src, num("lines"))
 	} else {
@@ -848,6 +903,14 @@ func main() {
 				cases = append(cases, p)
 			}
 		}
+	}
+	if o.Tier == "thorough" {
+		c := mk("forin-10000", `BEGIN { for (i = 0; i < 10000; i++) a[i] = 1; n = 0; for (k in a) { n++; if (n == 7777) { R[1] = n; cancel() } R[0] = n } while (1) n++ }`, "live")
+		c.kmin, c.mustCtx = 7, true
+		cases = append(cases, c)
+		c = mk("recursion-990", `function g(d) { R[0] = d; if (d == 880) { R[1] = d; cancel() } if (d < 990) g(d + 1) } BEGIN { g(0); n = 0; while (1) { n++ } }`, "live")
+		c.kmin, c.mustCtx = 14, true
+		cases = append(cases, c)
 	}
 	// boundary: pre-cancelled programs of exactly 998, 999, 1000 dispatches
 	for _, n := range []int{498, 499, 500, 501} {
@@ -1011,6 +1074,7 @@ func main() {
 		ck.recordsOracle(t[0], t[1], 6000)
 	}
 
+	ck.expiringOracle()
 	if o.Tier == "thorough" {
 		ck.runtimeEvidence()
 	}
